@@ -125,6 +125,14 @@ def jobs(tier):
         for var in ("root", "nested", "chain"):
             out.append({"name": "equiv-opts/%s/%s" % (fmt, var), "kind": "equiv", "fmt": fmt, "variant": var, "startdir": "startdir", "tier": "quick", "opts": opts})
         out.append({"name": "paths/%s" % fmt, "kind": "paths", "fmt": fmt})
+    if tier != "thorough":      # the binary / markup formats on the two basic variants (all variants in the thorough tier)
+        for fmt, var in (("bson", "root"), ("bson", "nested"), ("xml", "root"), ("pickle", "nested")):
+            out.append({"name": "equiv/%s/%s/startdir" % (fmt, var), "kind": "equiv", "fmt": fmt, "variant": var, "startdir": "startdir", "tier": tier})
+    for fmt in (["json", "yaml", "xml", "bson", "pickle"] if tier == "thorough" else ["bson", "json", "pickle"]):
+        out.append({"name": "sizes/%s" % fmt, "kind": "sizes", "fmt": fmt})
+    for var in GROWN:
+        for fmt in (b["equiv_formats"] if tier == "thorough" else ["json"]):
+            out.append({"name": "equiv/%s/%s/startdir" % (fmt, var), "kind": "equiv", "fmt": fmt, "variant": var, "startdir": "startdir", "tier": tier})
     return out
 
 
@@ -135,7 +143,7 @@ def run_job(job, ctx):
             _law_pair(ctx, V.dec(single["base"]), V.dec(single["child"]))
         else:
             j = dict(single["jobparams_full"]); j["only"] = single["only"]
-            (_equiv if j["kind"] == "equiv" else _paths)(j, ctx)
+            {"equiv": _equiv, "sizes": _sizes}.get(j["kind"], _paths)(j, ctx)
         return
     if job["kind"] == "law":
         ts = trees(job["n"], leaves=job["leaves"])
@@ -147,6 +155,8 @@ def run_job(job, ctx):
         ctx.sample({"base": mine[-1], "child": ts[-1]})
     elif job["kind"] == "equiv":
         _equiv(job, ctx)
+    elif job["kind"] == "sizes":
+        _sizes(job, ctx)
     else:
         _paths(job, ctx)
 
@@ -225,8 +235,23 @@ def _write(fmt, path, tree, opts=None):
     return data
 
 
-def _schema(variant, startdir):
+GROWN = {"grown-nested-item": "nested", "grown-root-item": "root", "grown-nested-attr": "nested"}
+
+
+def _schema(variant, startdir, grown=None):
     import cincoconfig as cc
+    if grown:
+        # the include field joins the schema only after the schema has served a first document load
+        s = _schema("none", startdir)
+        s().loads(b"{}", "json")
+        kw = {"startdir": startdir} if startdir else {}
+        if grown == "grown-nested-item":
+            s["sub.inc"] = cc.IncludeField(**kw)
+        elif grown == "grown-nested-attr":
+            s.sub.inc = cc.IncludeField(**kw)
+        else:
+            s["include"] = cc.IncludeField(**kw)
+        return s
     s = cc.Schema()
     s.x = cc.IntField()
     s.y = cc.StringField()
@@ -283,7 +308,8 @@ def _case(job, only):
 
 def _equiv(job, ctx):
     import cincoconfig as cc
-    fmt, variant = job["fmt"], job["variant"]
+    fmt, variant = job["fmt"], GROWN.get(job["variant"], job["variant"])
+    grown = job["variant"] if job["variant"] in GROWN else None
     tmp = ctx.tmp
     incdir = os.path.join(tmp, "incs")
     os.makedirs(incdir, exist_ok=True)
@@ -387,11 +413,11 @@ def _equiv(job, ctx):
             mainpath = os.path.join(tmp, "main.cfg")
             maindata = _write(fmt, mainpath, main, job.get("opts"))
             if shared.get("schema") is None:
-                shared["schema"] = _schema(variant, startdir)
+                shared["schema"] = _schema(variant, startdir, grown)
             schema = shared["schema"]
             cfg = schema()
             ref = _schema(variant, startdir)()      # the reference side never touches the include machinery
-            fp = "C18|equiv|%s|%s|%s|" % (variant, fmt, job["startdir"])
+            fp = "C18|equiv|%s|%s|%s|" % (job["variant"], fmt, job["startdir"])
             case = _case(job, [mi, ci])
             ctx.transitions += 1
             main_before = copy.deepcopy(main)
@@ -426,6 +452,50 @@ def _equiv(job, ctx):
     ctx.states += n
     ctx.traces += 1
     ctx.sample({"variant": variant, "format": fmt, "startdir": job["startdir"], "pairs": n})
+
+
+def _sizes(job, ctx):
+    """include files of every encoded length over a full cycle of the low length byte (and the few shortest documents):
+    binary formats carry the document length up front, and nothing about an include file's bytes may be normalised"""
+    import cincoconfig as cc
+    fmt = job["fmt"]
+    only = job.get("only")
+    incdir = os.path.join(ctx.tmp, "incs")
+    os.makedirs(incdir, exist_ok=True)
+    os.chdir(ctx.tmp)
+    children = [{}, {"x": 1}, {"sub": {"z": 1}}, {"x": 1, "y": "q"}] + [{"y": "p" * k} for k in range(0, 262)] + [{"y": " " * k + "p" + " " * k} for k in (1, 2, 9)]
+    seen_sizes = set()
+    for nested in (False, True):
+        schema = _schema("nested" if nested else "root", incdir)
+        for ci, child in enumerate(children):
+            if only is not None and only != [nested, ci]:
+                continue
+            data = _write(fmt, os.path.join(incdir, "inc.cfg"), (child.get("sub", {}) if nested and "sub" in child else ({"w": child["y"]} if nested and "y" in child else ({"z": 1} if nested and child else child))))
+            seen_sizes.add(len(data) % 256)
+            main = {"sub": {"inc": "inc.cfg", "z": 5}} if nested else {"include": "inc.cfg", "x": 5}
+            mainpath = os.path.join(ctx.tmp, "main.cfg")
+            _write(fmt, mainpath, main)
+            inc_tree = cc.ConfigFormat.get(fmt).loads(None, data)
+            want = copy.deepcopy(main)
+            if nested:
+                want["sub"] = ref_merge(main["sub"], inc_tree)
+            else:
+                want = ref_merge(main, inc_tree)
+            cfg, ref = schema(), schema()
+            ctx.transitions += 1
+            case = _case(job, [nested, ci]); case["kind"] = "sizes"
+            try:
+                cfg.load(mainpath, fmt)
+            except Exception as exc:  # noqa
+                ctx.case(("sizes", fmt, nested, ci), "sizes:load-raises", True)
+                ctx.violation("C18|sizes|%s|load-raises" % fmt, "an include file of %d bytes (%s) made the load raise %r" % (len(data), V.show(child, 40), exc), case)
+                continue
+            ref.load_tree(want)
+            ctx.case(("sizes", fmt, nested, ci), "sizes:ok", True)
+            if V.canon(_norm_paths(cc.asdict(cfg), incdir)) != V.canon(_norm_paths(cc.asdict(ref), incdir)):
+                ctx.violation("C18|sizes|%s|differs" % fmt, "an include file of %d bytes (%s) loads as %s, the merged tree as %s" % (len(data), V.show(child, 40), cc.asdict(cfg), cc.asdict(ref)), case)
+    ctx.states += len(children)
+    ctx.sample({"sizes": fmt, "distinct_low_length_bytes": len(seen_sizes)})
 
 
 def _norm_paths(d, incdir):
